@@ -397,8 +397,9 @@ def c19_stages(tier):
 
 def fault_stages(tier):
     if tier == 'thorough':
-        return [HS('fault-t', 'MC_AffTree_fault_t.cfg')]
-    return [HS('fault-q', 'MC_AffTree_fault_q.cfg')]
+        return [HS('fault-t', 'MC_AffTree_fault_t.cfg'), HS('fault-2dt', 'MC_AffTree_fault_2dt.cfg')]
+    # fault-2d: trees over R^2 (the witness repair by mirroring works on points with more than one coordinate)
+    return [HS('fault-q', 'MC_AffTree_fault_q.cfg'), HS('fault-2d', 'MC_AffTree_fault_2d.cfg')]
 
 
 def c07_stages(tier):
